@@ -25,6 +25,8 @@ def stmtOk (l : Leaf) : Stmt → Bool
   | .add n e => (match fixedWidth l with | some k => n == k && encOk l k e | none => false)
   | .ret n e _ => (match fixedWidth l with | some k => n == k && encOk l k e | none => false)
   | .cstr => (match l with | .cstring => true | _ => false)
+  | .scstr => (match l with | .sizedCString => true | _ => false)
+  | .pguid => (match l with | .packedGuid => true | _ => false)
   | _ => false
 
 def plainRole : Role → Bool
@@ -34,7 +36,7 @@ def plainRole : Role → Bool
 /-- definitions inside the fragment: plain fields of fixed-width leaves and C strings only -/
 def isFlat : Members → Bool
   | .nil => true
-  | .cons (.field _ role (.leaf l)) ms => plainRole role && ((fixedWidth l).isSome || (match l with | .cstring => true | _ => false)) && isFlat ms
+  | .cons (.field _ role (.leaf l)) ms => plainRole role && ((fixedWidth l).isSome || (match l with | .cstring => true | .sizedCString => true | .packedGuid => true | _ => false)) && isFlat ms
   | _ => false
 
 /-- the static matcher for straight-line definitions -/
@@ -107,6 +109,25 @@ theorem zeroIndex_append (s r : Bytes) (h : s.contains 0 = false) : zeroIndex (s
     simp only [List.cons_append, zeroIndex, hx, ih h.2, Option.map_some, List.length_cons]
     rfl
 
+def countTrue : List Bool → Nat
+  | [] => 0
+  | b :: bs => (if b then 1 else 0) + countTrue bs
+
+theorem pop8 : ∀ b0 b1 b2 b3 b4 b5 b6 b7 : Bool,
+    popCount8 (bitsToNat [b0, b1, b2, b3, b4, b5, b6, b7]) = countTrue [b0, b1, b2, b3, b4, b5, b6, b7] ∧ bitsToNat [b0, b1, b2, b3, b4, b5, b6, b7] < 256 := by
+  decide
+
+theorem packBytes_spec : ∀ (bs : Bytes), (packBytes bs).1.length = bs.length ∧ (packBytes bs).2.length = countTrue (packBytes bs).1
+  | [] => by simp [packBytes, countTrue]
+  | b :: bs => by
+      have ih := packBytes_spec bs
+      simp only [packBytes]
+      split <;> simp [countTrue, ih.1, ih.2] <;> omega
+
+theorem pop8_list (m : List Bool) (h : m.length = 8) : popCount8 (bitsToNat m) = countTrue m ∧ bitsToNat m < 256 := by
+  match m, h with
+  | [b0, b1, b2, b3, b4, b5, b6, b7], _ => exact pop8 b0 b1 b2 b3 b4 b5 b6 b7
+
 theorem take_exact (n : Nat) (e : Enc) (st : St) (b r : Bytes) (hr : st.rest = b ++ r) (hn : b.length = n) :
     take n e st = .ok (b, { st with rest := r, trace := (n, e) :: st.trace }) := by
   unfold take
@@ -174,6 +195,63 @@ theorem stmt_leaf (ctx : Ctx) (l : Leaf) (s : Stmt) (v : Val) (b r : Bytes) (st 
         refine ⟨{ st with rest := r, trace := (sv.length + 1, .na) :: st.trace }, .na, ?_, rfl, by simp, by simp [entryEq, encOf]⟩
         simp only [runStmt, hz, take_exact (sv.length + 1) .na st (sv ++ [0]) r hr hlen, Except.map]
     | nat _ => simp [encLeaf] at he
+    | tuple _ => simp [encLeaf] at he
+    | list _ => simp [encLeaf] at he
+    | none => simp [encLeaf] at he
+  | scstr =>
+    cases l <;> simp [stmtOk] at hs
+    cases v with
+    | bytes sv =>
+      simp only [encLeaf] at he
+      split at he
+      · cases he
+      · cases hh : encInt 4 .le (sv.length + 1) with
+        | none => simp [hh] at he
+        | some hb =>
+          simp only [hh, Option.map_some, Option.some.injEq] at he
+          subst he
+          have hlen4 := encInt_len 4 .le _ hb hh
+          have hval : decLE hb = sv.length + 1 := by
+            unfold encInt at hh
+            split at hh
+            · rename_i hlt
+              injection hh with hh; subst hh
+              exact decLE_encLE 4 _ hlt
+            · cases hh
+          have htake : st.rest.take 4 = hb := by rw [hr, ← hlen4]; simp
+          have hge : 4 ≤ st.rest.length := by rw [hr]; simp; omega
+          have hlen : (hb ++ sv ++ [0]).length = 4 + (sv.length + 1) := by simp [hlen4]
+          refine ⟨{ st with rest := r, trace := (4 + (sv.length + 1), .na) :: st.trace }, .na, ?_, rfl, by rw [hlen], by simp [entryEq, encOf]⟩
+          simp only [runStmt, hge, if_true, htake, hval, take_exact (4 + (sv.length + 1)) .na st (hb ++ sv ++ [0]) r hr hlen, Except.map]
+    | nat _ => simp [encLeaf] at he
+    | tuple _ => simp [encLeaf] at he
+    | list _ => simp [encLeaf] at he
+    | none => simp [encLeaf] at he
+  | pguid =>
+    cases l <;> simp [stmtOk] at hs
+    cases v with
+    | nat n =>
+      simp only [encLeaf] at he
+      split at he
+      · have hspec := packBytes_spec (encLE 8 n)
+        cases hpb : packBytes (encLE 8 n) with
+        | mk m pl =>
+          simp only [hpb] at he hspec
+          injection he with he
+          subst he
+          have hm8 : m.length = 8 := by simpa using hspec.1
+          obtain ⟨hpop, hlt⟩ := pop8_list m hm8
+          have hmask : (UInt8.ofNat (bitsToNat m)).toNat = bitsToNat m := by
+            simp [UInt8.toNat_ofNat]; omega
+          have hge : 1 ≤ st.rest.length := by rw [hr]; simp
+          have htake : st.rest.take 1 = [UInt8.ofNat (bitsToNat m)] := by rw [hr]; simp
+          have hdec : decLE [UInt8.ofNat (bitsToNat m)] = bitsToNat m := by simp [decLE, hmask]
+          have hlen : (UInt8.ofNat (bitsToNat m) :: pl).length = 1 + popCount8 (bitsToNat m) := by
+            simp [hspec.2, hpop]; omega
+          refine ⟨{ st with rest := r, trace := (1 + popCount8 (bitsToNat m), .na) :: st.trace }, .na, ?_, rfl, by simp [hlen], by simp [entryEq, encOf]⟩
+          simp only [runStmt, hge, if_true, htake, hdec, take_exact (1 + popCount8 (bitsToNat m)) .na st _ r hr hlen, Except.map]
+      · cases he
+    | bytes _ => simp [encLeaf] at he
     | tuple _ => simp [encLeaf] at he
     | list _ => simp [encLeaf] at he
     | none => simp [encLeaf] at he
@@ -267,6 +345,39 @@ theorem flat_walk (ctx : Ctx) (c : Members) (p : Block) (hm : flatMatches c p = 
     rw [htrace, hrest]
     simp
 
+/-- MSG_* cases serve both directions: `if (SERVER_TO_CLIENT) { … } else { … }` around two straight-line bodies -/
+def dirBody (ctx : Ctx) : Block → Block
+  | .cons (.ifs (.cons .s2c b1 (.els b2))) .nil => if ctx.s2c then b1 else b2
+  | p => p
+
+theorem runBlock_nil_right (ctx : Ctx) : ∀ (p : Block) (st : St), (match runBlock ctx p st with | .error x => .error x | .ok st' => runBlock ctx .nil st') = runBlock ctx p st := by
+  intro p st
+  cases runBlock ctx p st <;> simp [runBlock]
+
+theorem runBlock_dirBody (ctx : Ctx) (p : Block) (st : St) : runBlock ctx p st = runBlock ctx (dirBody ctx p) st := by
+  unfold dirBody
+  split
+  · rename_i b1 b2
+    simp only [runBlock, runStmt, runArms, WCond.holds]
+    cases hs : ctx.s2c
+    · simp only [Bool.false_eq_true, if_false]
+      exact runBlock_nil_right ctx b2 st
+    · simp only [if_true]
+      exact runBlock_nil_right ctx b1 st
+  · rfl
+
+def flatMatchesDir (ctx : Ctx) (c : Members) (p : Block) : Bool := flatMatches c (dirBody ctx p)
+
+/-- the same for direction-wrapped cases, in the direction `ctx` -/
+theorem flat_walk_dir (ctx : Ctx) (c : Members) (p : Block) (hm : flatMatchesDir ctx c p = true) (vs : List Val) (b : Bytes) (tr : Trace) (e : Env)
+    (he : encode c vs = some b) (ht : trMembers c [] vs = some (tr, e)) :
+    ∃ tr', run ctx p b = .ok (tr', []) ∧ traceEq tr tr' = true := by
+  obtain ⟨tr', hrun, heq⟩ := flat_walk ctx c (dirBody ctx p) hm vs b tr e he ht
+  refine ⟨tr', ?_, heq⟩
+  unfold run at *
+  rw [runBlock_dirBody ctx p]
+  exact hrun
+
 example : flatMatches (.cons (.field 0 .plain (.leaf (.int 8 .le))) (.cons (.field 1 .plain (.leaf (.int 4 .le))) (.cons (.field 2 .plain (.leaf .cstring)) .nil)))
     (.cons (.add 8 .le) (.cons (.ret 4 .le 0) (.cons .cstr .nil))) = true := by decide
 example : flatMatches (.cons (.field 0 .plain (.leaf (.int 4 .be))) .nil) (.cons (.add 4 .le) .nil) = false := by decide
@@ -277,3 +388,5 @@ open WowVerif.Wireshark in
 #print axioms flat_sound
 open WowVerif.Wireshark in
 #print axioms flat_walk
+open WowVerif.Wireshark in
+#print axioms flat_walk_dir
